@@ -105,7 +105,43 @@ def _is_flag(t, rows, col):
         strip_wrappers(t[1][1]) == rows
 
 
-def guard_verdict(pc, rows, col):
+def loop_guard(loop_events, rows, col):
+    """the loop spelling of the guard:
+
+        for r in rows:
+            if r[col]: return        # (or raise)
+
+    -> True when some `for` loop over `rows` among loop_events leaves the
+    function on every iteration that sees a truthy `col` and carries on only on
+    iterations that see a falsy one: code after the loop runs only when no row
+    has the flag."""
+    for lp in loop_events:
+        if not lp.get("for") or lp["iter"] is None or strip_wrappers(lp["iter"]) != rows:
+            continue
+        leave = stay = 0
+        ok = True
+        for alt in lp["alts"]:
+            pol = None
+            for (t, b, _site) in alt["pc"]:
+                tt, bb = t, b
+                while tt[0] in ("not", "truth"):
+                    if tt[0] == "not":
+                        bb = not bb
+                    tt = tt[1]
+                if _is_flag(tt, rows, col):
+                    pol = bb
+            if pol is True and alt["out"] in ("return", "raise"):
+                leave += 1
+            elif pol is False and alt["out"] in ("normal", "continue"):
+                stay += 1
+            else:
+                ok = False
+        if ok and leave and stay:
+            return True
+    return False
+
+
+def guard_verdict(pc, rows, col, loop_events=()):
     """Among the path conditions (those decided after the select was taken),
     find the ones depending on `col` of `rows`.
     -> (found, ok, text): ok iff some condition distinguishes 'no row has the
@@ -130,6 +166,9 @@ def guard_verdict(pc, rows, col):
         good = "reached only when no row has `%s`" % col
     if good:
         return True, True, good
+    if loop_events and loop_guard(loop_events, rows, col):
+        return True, True, "reached only after a loop over the rows that leaves on the " \
+            "first row that has `%s`" % col
     if found:
         return True, False, "the conditions on `%s` do not establish that no row has it" % col
     return False, False, "not guarded by the `%s` flags of the side rows" % col
